@@ -159,7 +159,7 @@ def evaluate(args):
                 first = next((ln.strip() for ln in c.stdout.splitlines() if ln.startswith("  [")), "")
                 rec.update(outcome="killed", by=chk, first=first[:200], wall=round(time.time() - t0, 1))
                 return rec
-            if c.returncode not in (0, 1):
+            if c.returncode not in (0, 1) or (c.returncode == 1 and "VIOLATION" not in c.stdout):
                 rec.update(outcome="check-crashed", by=chk, first=(c.stderr or "")[-300:], wall=round(time.time() - t0, 1))
                 return rec
         rec.update(outcome="survived", wall=round(time.time() - t0, 1))
